@@ -224,12 +224,14 @@ def generate(run_seed: int, tier: str, *, faults: bool) -> dict:
         used = list(dict.fromkeys(used + world.variables_of(f2)))
         if train_keep is not None:
             train_keep = used
-        if train2 is not None:
-            mb2 = sorted({v for a in f2["atoms"] if a.get("mean_based") for v in a["vars"]})
-            if mb2:
-                nullrow2 = world.universe_frame(u)[mb2].isna().any(axis=1).to_numpy()
-                kept2 = [i for i in train2 if not nullrow2[i]]
-                train2 = kept2 if len(kept2) >= 4 else train2
+        mb2 = sorted({v for a in f2["atoms"] if a.get("mean_based") for v in a["vars"]})
+        if mb2:
+            # the second fit, too, is (mostly) trained on rows without nulls under its mean-based transforms
+            nullrow2 = world.universe_frame(u)[mb2].isna().any(axis=1).to_numpy()
+            base2 = train2 if train2 is not None else train
+            kept2 = [i for i in base2 if not nullrow2[i]]
+            if len(kept2) >= 4 and len(kept2) != len(base2):
+                train2 = kept2
         dom = [i for i in dom if i in set(world.training_domain(u, f2, train2 if train2 is not None else train))]
         for o in ops:
             if "ids" in o:
@@ -520,7 +522,7 @@ def execute(scenario: dict, env: Any, *, prop: str) -> dict:
                     tframe2 = frame(sc["train2"], sc["train_index"], keep=sc.get("train_keep")) if sc.get("train2") else tframe
                     mm1 = model_matrix(world.spec_to_python(sc["formula2"]["spec"]), tframe2, context=world.user_context(), **sc["opts"])
                 c1 = canon(mm1, Structured)
-                if any(m["arr"].dtype == object or not np.all(np.isfinite(m["arr"])) or m["arr"].shape[0] == 0 for _, m in c1):
+                if any(m["arr"].dtype == object or not np.all(np.isfinite(m["arr"])) or m["arr"].shape[0] == 0 or m["arr"].shape[1] == 0 for _, m in c1):
                     raise ArithmeticError("degenerate second fit")
                 spec1, names1 = mm1.model_spec, [m["names"] for _, m in c1]
                 ref1 = Ref(pickle.loads(pickle.dumps(spec1)), sc, Structured)
@@ -659,6 +661,8 @@ def execute(scenario: dict, env: Any, *, prop: str) -> dict:
                 cv = classify_var(h.get("atoms", atoms), fault["var"])
                 if fault["var"] not in h.get("vars", [fault["var"]]):
                     continue  # the subset spec does not use the faulted variable at all
+                if fault["kind"] == "level_alias" and (cv["inf"] or cv["num_py"]):
+                    continue  # on this handle the variable is also used by inference / numerically: an alias there is a kind question, not a level change
                 fl = dict(fault)
                 if fault["kind"] == "level_gain":
                     exp0 = h["ref"].expected(ids)
